@@ -30,6 +30,8 @@ def wire_script(script: list[list[Any]]) -> list[list[Any]]:
     for st in script:
         if st[0] == "ingest":
             out.append(["ingest", [wire_event(e) for e in st[1]]])
+        elif st[0] == "run":
+            out.append(["run", st[1], st[2], [wire_event(e) for e in st[3]]])
         elif st[0] == "stream":
             f = st[1] if len(st) > 1 else None
             out.append(["stream", None if f is None else [[k, sorted(v)] for k, v in f.items()]])
